@@ -24,5 +24,44 @@ def ampAt (comps : List (α × α × α)) (bw t : α) : α :=
 def synth (fs bw : α) (next : Nat) (comps : List (α × α × α)) (js : List α) : List α :=
   js.map (fun j => ampAt (pick next comps 0) bw (Transc.lit 1 0 / fs * j))
 
+/-! ### the statements of `spectralRepresentation` before the double loop (lsg/sequenceFromSpectrum.py:98-113)
+
+`round` (Python: half to even, to an integer) is a parameter: the driver supplies `pyRound` on binary64, the theorems hold for any
+function. -/
+
+/-- "deal with freqBandwidth": `None`, or a request below the grid spacing, becomes the grid spacing -/
+def bandwidth (req : Option α) (df : α) : α :=
+  match req with
+  | none => df
+  | some b => if Transc.ltb b df then df else b
+
+/-- `next = round( freqBandwidth / ( freq[ 1 ] - freq[ 0 ] ) )` -/
+def stride (rnd : α → Nat) (bw df : α) : Nat := rnd (bw / df)
+
+/-- `phis = -np.pi + 2 * np.pi * np.random.randn( len( freq ) )` -/
+def phase (r : α) : α := -Transc.pi + two * Transc.pi * r
+
+def zip3 : List α → List α → List α → List (α × α × α)
+  | f :: fs, p :: ps, r :: rs => (f, p, phase r) :: zip3 fs ps rs
+  | _, _, _ => []
+
+/-- the whole function after validation: `n = round( fs * time )` samples at `1 / fs * j`, the spacing from the first two
+frequencies, bandwidth, stride, phases from the normal draws, then the double loop (`synth`) -/
+def synthFull (rnd : α → Nat) (fs time : α) (req : Option α) (freq psd randn : List α) : List α :=
+  match freq with
+  | f0 :: f1 :: _ =>
+    let df := f1 - f0
+    let bw := bandwidth req df
+    synth fs bw (stride rnd bw df) (zip3 freq psd randn) ((List.range (rnd (fs * time))).map (fun j => Transc.lit j 0))
+  | _ => []
+
 end
+
+/-- Python's `round( x )` for a non-negative binary64 `x`: nearest integer, ties to even -/
+def pyRound (x : Float) : Nat :=
+  let f := x.floor
+  let d := x - f
+  let fi := f.toUInt64.toNat
+  if d < 0.5 then fi else if d > 0.5 then fi + 1 else (if fi % 2 == 0 then fi else fi + 1)
+
 end FF.Spectral
